@@ -77,6 +77,11 @@ void bufferctrl::wait_ready()
 {
   std::unique_lock<std::mutex> locker(lock);
   while (state != READY && state != INV)
+  WV_LOOP(__CPROVER_assigns(this->state, wv_b->now, wv_b->total, wv_b->tail, wv_b->isfinal, WV_ARR(wv_b->b))
+          __CPROVER_loop_invariant(this->lock.held && WV_ST_OK(this->state) && WV_B_OK(wv_b))
+          __CPROVER_loop_invariant(!WV_IO_OWNED(__CPROVER_loop_entry(this->state)) ==> (this->state == __CPROVER_loop_entry(this->state) && WV_B_SAME_AS_ENTRY))
+          __CPROVER_loop_invariant(WV_IO_OWNED(__CPROVER_loop_entry(this->state)) ==>
+                                   ((this->state == READY ==> (wv_b->now == 0 && wv_b->total >= 1)) && (this->state == INV ==> wv_b->now == wv_b->total))))
     cv_ready.wait(locker);
   locker.unlock();
 }
@@ -87,6 +92,13 @@ void bufferctrl::wait_update()
 {
   std::unique_lock<std::mutex> locker(lock);
   while (state != UPDATING && state != EMPTY)
+  WV_LOOP(__CPROVER_assigns(this->state, wv_b->now, wv_b->total, wv_b->tail, wv_b->isfinal, WV_ARR(wv_b->b))
+          __CPROVER_loop_invariant(this->lock.held && WV_ST_OK(this->state) && this->state != INV && WV_B_OK(wv_b))
+          __CPROVER_loop_invariant(__CPROVER_loop_entry(this->state) != READY ==> (this->state == __CPROVER_loop_entry(this->state) && WV_B_SAME_AS_ENTRY))
+          __CPROVER_loop_invariant(__CPROVER_loop_entry(this->state) == READY ==>
+                                   ((this->state == READY || this->state == UPDATING) && wv_b->now >= __CPROVER_loop_entry(wv_b->now) &&
+                                    wv_b->total == __CPROVER_loop_entry(wv_b->total) && wv_b->tail == __CPROVER_loop_entry(wv_b->tail) &&
+                                    wv_b->isfinal == __CPROVER_loop_entry(wv_b->isfinal) && (this->state == UPDATING ==> wv_b->now == wv_b->total))))
     cv_update.wait(locker);
   locker.unlock();
 }
@@ -185,6 +197,11 @@ u8_t *buffergroup::require_buffer_entry(const u8_t id)
 {
   u8_t *result = buflst[id].get_entry();
   while (result == NULL)
+  WV_LOOP(__CPROVER_assigns(result, wv_c->state, wv_c->lock.held, wv_b->now, wv_b->total, wv_b->tail, wv_b->isfinal, WV_ARR(wv_b->b), wv_pl.notified_ready, wv_pl.notified_update)
+          __CPROVER_loop_invariant(WV_WORKER_INV && (result == NULL ==> wv_b->now == wv_b->total))
+          __CPROVER_loop_invariant(result != NULL ==> (wv_c->state == READY && wv_b->now >= 1 && result == wv_b->b[wv_b->now - 1]))
+          __CPROVER_loop_invariant(__CPROVER_loop_entry(result) != NULL ==> (result == __CPROVER_loop_entry(result) && wv_c->state == __CPROVER_loop_entry(wv_c->state) && WV_B_SAME_AS_ENTRY))
+          __CPROVER_loop_invariant((__CPROVER_loop_entry(result) == NULL && result != NULL) ==> wv_b->now == 1))
   {
     WV_SCHED(1);
     ctrl[id].set_update();
@@ -193,6 +210,7 @@ u8_t *buffergroup::require_buffer_entry(const u8_t id)
       break; // INV: no more data for this buffer
     result = buflst[id].get_entry();
   }
+  WV_GHOST(if (result != NULL) { wv_pl.entries++; wv_pl.last_entry = result; })
   return result;
 }
 /*
